@@ -1,4 +1,129 @@
+import BobModel.Model.ArchiveIndex
 import BobModel.Util.Proto
-open Lean Proto
-/-- stub driver of C19: replaced when the model of this property is built -/
-def main : IO Unit := runPure fun _ => err "unsupported"
+open Lean Proto Retention ArchiveIndex
+
+/-
+requests (self-contained, one world per request):
+ {"op":"scan"|"find"|"clean", "repaired":b, "noscan":b, "dry":b, "exprs":[expr], "files":[file], "rows":[row], "refs":[[bid,ref]]}
+   expr = {"pred":pred, "limit":n|null, "sortBy":[str], "asc":b}
+   pred = {"not":p} | {"and":[l,r]} | {"or":[l,r]} | {"cmp":op,"l":p,"r":p} | {"lit":s} | {"ref":[str]}
+   file = {"bid":hex, "stat":hex, "audit":null|{"vars":val,"refs":[hex]}, "deletable":b}
+   row  = {"bid":hex, "stat":hex, "vars":val}
+   val  = string | object | anything else (= other)
+ {"op":"query","exprs":[expr],"rows":[{"bid":hex,"vars":val}]}    rows in iteration order; reply {"ok":[bid sorted]} | {"qerr":kind}
+ {"op":"evalbool","pred":pred,"data":val}   {"op":"closure","refs":[[b,r]],"retained":[b]}
+replies:
+ {"out":{"ok":[bid]}|{"qerr":kind}|{"delerr":bid}, "files":[bid], "rows":[row], "refs":[[bid,ref]]}
+-/
+
+instance : Inhabited Val := ⟨.other⟩
+
+partial def valOf (j : Json) : Val :=
+  match j with
+  | .str s => .str s.toList
+  | .obj kvs => .map (kvs.toList.map fun (k, v) => (k.toList, valOf v))
+  | _ => .other
+
+partial def valJson (v : Val) : Json :=
+  match v with
+  | .str s => Json.str (String.ofList s)
+  | .map kvs => Json.mkObj (kvs.map fun (k, x) => (String.ofList k, valJson x))
+  | .other => Json.null
+
+instance : Inhabited Pred := ⟨.lit []⟩
+
+def opOf (s : String) : CmpOp :=
+  match s with
+  | "<" => .lt | "<=" => .le | ">" => .gt | ">=" => .ge | "==" => .eq | _ => .ne
+
+def pathOf (j : Json) : List Str := (strList j).map String.toList
+
+partial def predOf (j : Json) : Pred :=
+  match j.getObjVal? "not" with
+  | .ok a => .not (predOf a)
+  | _ => match j.getObjVal? "and" with
+    | .ok (.arr a) => .and (predOf a[0]!) (predOf a[1]!)
+    | _ => match j.getObjVal? "or" with
+      | .ok (.arr a) => .or (predOf a[0]!) (predOf a[1]!)
+      | _ => match j.getObjVal? "cmp" with
+        | .ok (.str op) => .cmp (opOf op) (predOf (j.getObjValD "l")) (predOf (j.getObjValD "r"))
+        | _ => match j.getObjVal? "lit" with
+          | .ok (.str s) => .lit s.toList
+          | _ => .ref (pathOf (j.getObjValD "ref"))
+
+def exprOf (j : Json) : Expr :=
+  { pred := predOf (j.getObjValD "pred"),
+    limit := match j.getObjVal? "limit" with
+      | .ok v => v.getNat?.toOption
+      | _ => none,
+    sortBy := pathOf (j.getObjValD "sortBy"),
+    asc := getBool j "asc" }
+
+def fileOf (j : Json) : FileEnt :=
+  { bid := (getStr j "bid").toList, stat := (getStr j "stat").toList,
+    audit := match getObj? j "audit" with
+      | none => none
+      | some a => some { vars := valOf (a.getObjValD "vars"), refs := (strList (a.getObjValD "refs")).map String.toList },
+    deletable := match j.getObjVal? "deletable" with
+      | .ok (.bool b) => b
+      | _ => true }
+
+def rowOf (j : Json) : Row :=
+  { bid := (getStr j "bid").toList, stat := (getStr j "stat").toList, vars := valOf (j.getObjValD "vars") }
+
+def pairOf (j : Json) : Bid × Bid :=
+  match j with
+  | .arr a => (match a[0]! with | .str s => s.toList | _ => [], match a[1]! with | .str s => s.toList | _ => [])
+  | _ => ([], [])
+
+def worldOf (j : Json) : World :=
+  { files := (getArr j "files").map fileOf,
+    idx := { rows := (getArr j "rows").map rowOf, refs := (getArr j "refs").map pairOf } }
+
+def errName : QErr → String
+  | .opInStringCtx => "opInStringCtx" | .strInBoolCtx => "strInBoolCtx" | .refInBoolCtx => "refInBoolCtx"
+  | .cmpUnsupported => "cmpUnsupported" | .invalidFieldRef => "invalidFieldRef"
+
+def bidsJson (l : List Bid) : Json := Json.arr (l.map fun b => Json.str (String.ofList b)).toArray
+
+def outJson : Outcome → Json
+  | .ok l => Json.mkObj [("ok", bidsJson l)]
+  | .queryError e => Json.mkObj [("qerr", Json.str (errName e))]
+  | .deleteError b => Json.mkObj [("delerr", Json.str (String.ofList b))]
+
+def worldJson (w : World) (out : Json) : Json :=
+  Json.mkObj [
+    ("out", out),
+    ("files", bidsJson (w.files.map fun f => f.bid)),
+    ("rows", Json.arr ((sortedRows w.idx.rows).map fun r =>
+      Json.mkObj [("bid", Json.str (String.ofList r.bid)), ("stat", Json.str (String.ofList r.stat)), ("vars", valJson r.vars)]).toArray),
+    ("refs", Json.arr (w.idx.refs.map fun p =>
+      Json.arr #[Json.str (String.ofList p.1), Json.str (String.ofList p.2)]).toArray)]
+
+def badLimit (es : List Expr) : Bool := es.any fun e => e.limit == some 0
+
+def main : IO Unit := runPure fun j =>
+  let rep := getBool j "repaired"
+  let es := (getArr j "exprs").map exprOf
+  match getStr j "op" with
+  | "scan" => let w := scanCmd rep (worldOf j); worldJson w (Json.mkObj [("ok", Json.arr #[])])
+  | "find" =>
+    if badLimit es then err "badLimit" else
+    let (w, o) := findCmd rep (getBool j "noscan") es (worldOf j)
+    worldJson w (outJson o)
+  | "clean" =>
+    if badLimit es then err "badLimit" else
+    let (w, o) := cleanCmd rep (getBool j "noscan") (getBool j "dry") es (worldOf j)
+    worldJson w (outJson o)
+  | "query" =>
+    if badLimit es then err "badLimit" else
+    match query es ((getArr j "rows").map fun r => ((getStr r "bid").toList, valOf (r.getObjValD "vars"))) with
+    | .ok l => Json.mkObj [("ok", bidsJson (findOut l))]
+    | .error e => Json.mkObj [("qerr", Json.str (errName e))]
+  | "evalbool" =>
+    match evalBool (predOf (j.getObjValD "pred")) (valOf (j.getObjValD "data")) with
+    | .ok b => Json.mkObj [("ok", Json.bool b)]
+    | .error e => Json.mkObj [("qerr", Json.str (errName e))]
+  | "closure" =>
+    Json.mkObj [("ok", bidsJson (findOut (closure ((getArr j "refs").map pairOf) ((strList (j.getObjValD "retained")).map String.toList))))]
+  | _ => err "bad-op"
